@@ -22,7 +22,7 @@ for f in sorted(os.listdir(d)):
         if doc:
             t = re.sub(r"\s+", " ", doc).strip()
             first = re.split(r"(?<=[.:;])\s", t, maxsplit=1)[0][:200]
-        if not name.startswith("ex"):
+        if not re.match(r"ex([A-Z0-9_]|$)", name):
             items.append("* `%s`%s" % (name, (" — " + first) if first else ""))
     total += len(items)
     out += ["", "**%s** (%d theorems)" % (f[:-5], len(items)), ""] + items
